@@ -28,6 +28,9 @@ Clause → theorem:
   `C04_no_early_fresh_timer`, `C04_timer_is_source` (`C04_no_early_any_ctx_statement` / `…_counterexample`: a Waiter re-used with
   another context); whole-run `Time.Sub` saturation `C04_sub_saturation_run`; run length of a pool `C04_pool_run_bounded`
   (`C04_run_bounded_of_drawn`); the phout line of a discarded token `C04_discard_sample_phout`; `C04_cached_reading_is_an_optimisation`
+* round 4: a closed world for a POOL (every instance with a clock of its own, any interleaving, late starters): `C04_pool_sim_is_sim`,
+  `C04_pool_sim_meets_hypotheses`, `C04_pool_sim_decisions`, `C04_pool_sim_run_bounded`, `C04_pool_sim_off_all_fired`,
+  `C04_pool_sim_all_handed_out`
 
 The model is tied to the current source by `Pandora.Bridge.Waiter` (regenerated `Wait`, `IsSlowDown`, `IsFinished`, constants, the
 whole pass of the loop of `instance.Run`, the cli default and its wiring) and by the real-time correspondence run (harness/cmd/c04).
@@ -39,6 +42,7 @@ import Pandora.Proofs.C04
 import Pandora.Proofs.C04Pool
 import Pandora.Proofs.C04Sim
 import Pandora.Proofs.C04Ext
+import Pandora.Proofs.C04PoolSim
 import Pandora.Bridge.Waiter
 
 namespace Pandora.Props.C04
@@ -352,12 +356,17 @@ theorem C04_default_on :
     Gen.Waiter.poolConfigDiscardKey = "discard_overflow" ∧
     Gen.Waiter.cliPoolsGetKey = Gen.Waiter.cliPoolsSetKey ∧
     Gen.Waiter.cliDecodesAfterDefault = true ∧
-    Gen.Waiter.instanceDiscardFrom = ["InstancePoolConfig.DiscardOverflow"] ∧
+    (Gen.Waiter.instanceDiscardFrom ≠ [] ∧ ∀ x ∈ Gen.Waiter.instanceDiscardFrom, x = "InstancePoolConfig.DiscardOverflow") ∧
     Gen.Waiter.discardFieldAssignments = 0 ∧
-    Gen.Waiter.cliDefaultGuard = "type-assertion-only" ∧ Gen.Waiter.cliDefaultInnerGuards = [] := by
+    Gen.Waiter.cliDefaultGuard = "type-assertion-only" ∧ Gen.Waiter.cliDefaultInnerGuards = [] ∧
+    -- round 4: the config is read before the default block; `Run` reads the very field the wiring sets
+    Gen.Waiter.cliReadsConfigBeforeDefault = true ∧
+    (Gen.Waiter.runReadsDiscardField ≠ [] ∧
+      ∀ x ∈ Gen.Waiter.runReadsDiscardField, x = "instanceSharedDeps.discardOverflow") := by
   obtain ⟨h1, h2, h3, h4, h5, h6, h7, h8⟩ := Bridge.Waiter.cli_default_wiring
   exact ⟨Bridge.Waiter.cliPoolDiscardOverflow_eq, rfl, fun _ => rfl, h1, h2, h3, h4.trans h5.symm, h6, h7, h8,
-    Bridge.Waiter.cli_default_unconditional.1, Bridge.Waiter.cli_default_unconditional.2⟩
+    Bridge.Waiter.cli_default_unconditional.1, Bridge.Waiter.cli_default_unconditional.2,
+    Bridge.Waiter.round4_wiring.1, Bridge.Waiter.round4_wiring.2⟩
 
 /-! ### the end of the run -/
 
@@ -603,8 +612,12 @@ theorem C04_pool_schedule_is_source (perInstance : Bool) :
     Gen.Waiter.scheduleKind perInstance = scheduleKind perInstance ∧
     scheduleKind false = .shared ∧ scheduleKind true = .own ∧
     (∀ w ∈ Gen.Waiter.sharedScheduleWrappers, w = "coreutil.NewCallbackOnFinishSchedule") ∧
-    Gen.Waiter.instanceScheduleFrom = "deps.newSchedule()" :=
-  ⟨Bridge.Waiter.scheduleKind_eq perInstance, rfl, rfl, Bridge.Waiter.schedule_wiring.1, Bridge.Waiter.schedule_wiring.2⟩
+    Gen.Waiter.instanceScheduleFrom = "deps.newSchedule()" ∧
+    -- round 4: that wrapper is transparent (regenerated from core/coreutil/schedule.go): the Waiters of a pool see the tokens and the
+    -- `Left()` of the profile's schedule itself, which is what `pstep` / `psimStep` read
+    Gen.Waiter.cbNextTransparent = true ∧ Gen.Waiter.cbLeftTransparent = true ∧ Gen.Waiter.cbEmbedsSchedule = true :=
+  ⟨Bridge.Waiter.scheduleKind_eq perInstance, rfl, rfl, Bridge.Waiter.schedule_wiring.1, Bridge.Waiter.schedule_wiring.2,
+    Bridge.Waiter.callback_schedule_transparent⟩
 
 /-! ### the user documentation (round 2) -/
 
@@ -912,6 +925,104 @@ theorem C04_pool_run_bounded (toks : List Int) (steps : List PStep) (hs : ∀ s 
   rw [← (prun_inv .fresh _ steps (PInv.init .fresh toks) hs).drawnEq i, List.mem_map]
   exact ⟨it, hit, by simp [Iter.tok, htok]⟩
 
+/-! ### round 4: the closed world of a POOL (`Model/C04PoolSim.lean`)
+
+Any number of instances on one shared schedule, each with its own clock and its own start instant `t0 i` (late starters), the steps
+`cs : List (Nat × Delays)` = which instance makes its next pass, with which delays — an arbitrary interleaving.  The clock hypotheses of
+the pool theorems of round 1-3 (`C04_pool_timing`, `C04_pool_run_bounded`: `ClockOK` … per instance) are DISCHARGED here: they hold in
+every such world. -/
+
+/-- Every instance of a pool lives in the single-instance closed world over the tokens it was handed: its history is `simHist` from a
+new Waiter at its start instant, over its own tokens (tokens of the profile, one delay record each). -/
+theorem C04_pool_sim_is_sim (d : Bool) (toks : List Int) (t0 : Nat → Int) (cs : List (Nat × Delays)) (i : Nat) :
+    psimHist d toks t0 cs i = simHist .fresh d Waiter.init (t0 i) (psimOwn i toks cs) (psimDelays i toks cs) ∧
+    (∀ t ∈ psimOwn i toks cs, t ∈ toks) ∧
+    (psimOwn i toks cs).length = (psimDelays i toks cs).length := by
+  refine ⟨?_, psimOwn_subset i toks cs, psimOwn_length i toks cs⟩
+  have := psim_hist d i cs (PSim.init toks t0)
+  simpa [psimHist, PSim.init] using this
+
+/-- The clock hypotheses of all the theorems above hold of every instance's history in every closed world of a pool (instances that
+start after year 1, i.e. after the zero `time.Time` of a new Waiter's cached reading). -/
+theorem C04_pool_sim_meets_hypotheses (d : Bool) (toks : List Int) (t0 : Nat → Int) (cs : List (Nat × Delays)) (i : Nat)
+    (h0 : zeroTime ≤ t0 i) :
+    ClockOK Waiter.init (psimHist d toks t0 cs i) ∧ ReadAfterPick (psimHist d toks t0 cs i) := by
+  rw [(C04_pool_sim_is_sim d toks t0 cs i).1]
+  exact C04_sim_meets_hypotheses .fresh d Waiter.init (t0 i) _ _ h0
+
+/-- The decisions of every instance of a pool, discard_overflow on, with NO hypothesis left about clocks: no action before the token's
+time; a token picked up two seconds or more late is not fired; a discarded token was at least two seconds late when it was reported;
+every token the instance was handed is acted on exactly once, in order. -/
+theorem C04_pool_sim_decisions (toks : List Int) (t0 : Nat → Int) (cs : List (Nat × Delays)) (i : Nat) (h0 : zeroTime ≤ t0 i) :
+    (∀ ev ∈ (runLoop .fresh true Waiter.init (psimHist true toks t0 cs i)).1,
+      ∃ next, ev.iter.env.tok = some next ∧ next ≤ ev.iter.env.ret) ∧
+    (∀ it, Ev.shoot it ∈ (runLoop .fresh true Waiter.init (psimHist true toks t0 cs i)).1 →
+      ∀ next, it.env.tok = some next → it.env.pick - next < maxOverdue) ∧
+    (∀ it s, Ev.discard it s ∈ (runLoop .fresh true Waiter.init (psimHist true toks t0 cs i)).1 →
+      ∃ next, it.env.tok = some next ∧ maxOverdue ≤ it.env.ret - next) ∧
+    (runLoop .fresh true Waiter.init (psimHist true toks t0 cs i)).1.map (fun ev => ev.iter.tok) = psimOwn i toks cs := by
+  obtain ⟨hc, hp⟩ := C04_pool_sim_meets_hypotheses true toks t0 cs i h0
+  refine ⟨C04_no_early .fresh true _ _ hc, fun it hev next htok => ?_, C04_not_discarded_if_fresh .fresh _ _ hc, ?_⟩
+  · refine C04_discarded_if_late _ _ hc hp it hev ?_ next htok
+    -- in the closed world nothing is cancelled: every generated pass has `ctxDoneSlow = false`
+    have hmem : it ∈ psimHist true toks t0 cs i := by
+      have : it ∈ drawn .fresh Waiter.init (psimHist true toks t0 cs i) := by
+        rw [← C04_every_drawn_token_acted .fresh true, List.mem_map]
+        exact ⟨_, hev, rfl⟩
+      exact drawn_mem .fresh Waiter.init _ it this
+    rw [(C04_pool_sim_is_sim true toks t0 cs i).1] at hmem
+    exact simHist_ctxDoneSlow .fresh true _ _ _ _ it hmem
+  · rw [(C04_pool_sim_is_sim true toks t0 cs i).1]
+    exact (C04_sim_terminates .fresh true Waiter.init (t0 i) _ _ (Nat.le_of_eq (C04_pool_sim_is_sim true toks t0 cs i).2.2)).2
+
+/-- The run length of a POOL in the closed world, discard_overflow on, any instance count, any interleaving, late starters included: if
+the tokens of the PROFILE lie in `[_, start + D]`, the responses instance `i` sees take at most `R`, its loop overhead before a pick-up
+at most `δ` and reading + arming + timer lag at most `ε`, and it enters its loop before `B = start + D + 2 s + ε + R`, then its loop ends
+through `IsFinished`, and its `k`-th action (a Shoot until its response, or a discard report) is over by `B + (k+1)(δ+ε)`. No
+hypothesis about clock readings, about the other instances, or about which tokens the instance gets. -/
+theorem C04_pool_sim_run_bounded (toks : List Int) (t0 : Nat → Int) (cs : List (Nat × Delays)) (i : Nat) (start D R ε δ : Int)
+    (hε : 0 ≤ ε) (hδ : 0 ≤ δ) (hR : 0 ≤ R) (h0 : zeroTime ≤ t0 i)
+    (htoks : ∀ tok ∈ toks, tok ≤ start + D)
+    (hps : ∀ c ∈ cs, c.1 = i → (c.2.dur : Int) ≤ R ∧ (c.2.dPick : Int) ≤ δ ∧ (c.2.dNow : Int) + c.2.dArm + c.2.dLag ≤ ε)
+    (ht : t0 i ≤ start + D + maxOverdue + ε + R) :
+    (runLoop .fresh true Waiter.init (psimHist true toks t0 cs i)).2 = .loopEnd ∧
+    (∀ k ev, (runLoop .fresh true Waiter.init (psimHist true toks t0 cs i)).1[k]? = some ev →
+      endT ev ≤ chainBound (start + D + maxOverdue + ε + R) (δ + ε) k) := by
+  obtain ⟨heq, hsub, hlen⟩ := C04_pool_sim_is_sim true toks t0 cs i
+  rw [heq]
+  have := C04_sim_run_bounded Waiter.init (t0 i) start D R ε δ (psimOwn i toks cs) (psimDelays i toks cs) hε hδ hR
+    (Nat.le_of_eq hlen) h0 (fun tok h => htoks tok (hsub tok h))
+    (fun p hp => by
+      obtain ⟨c, hc, h1, h2⟩ := psimDelays_subset i toks cs p hp
+      subst h2
+      exact hps c hc h1) ht
+  exact ⟨this.1, this.2.2⟩
+
+/-- discard_overflow OFF, pool, closed world: every token an instance is handed is fired (none discarded), in order, and its loop ends. -/
+theorem C04_pool_sim_off_all_fired (toks : List Int) (t0 : Nat → Int) (cs : List (Nat × Delays)) (i : Nat) :
+    (runLoop .fresh false Waiter.init (psimHist false toks t0 cs i)).2 = .loopEnd ∧
+    (∀ ev ∈ (runLoop .fresh false Waiter.init (psimHist false toks t0 cs i)).1, ev.isShoot = true) ∧
+    (runLoop .fresh false Waiter.init (psimHist false toks t0 cs i)).1.map (fun ev => ev.iter.tok) = psimOwn i toks cs := by
+  obtain ⟨heq, _, hlen⟩ := C04_pool_sim_is_sim false toks t0 cs i
+  rw [heq]
+  obtain ⟨h1, h2⟩ := C04_sim_terminates .fresh false Waiter.init (t0 i) _ _ (Nat.le_of_eq hlen)
+  refine ⟨h1, fun ev hev => ?_, h2⟩
+  rw [C04_off, List.mem_map] at hev
+  obtain ⟨_, _, rfl⟩ := hev
+  rfl
+
+/-- Every step of the world hands out exactly one token (the head of the schedule) until none is left: after `|profile|` steps — made by
+whichever instances — the whole profile has been handed out, each token to exactly one instance, and instance `i` got as many tokens as it
+made steps on the non-empty schedule. -/
+theorem C04_pool_sim_all_handed_out (d : Bool) (toks : List Int) (t0 : Nat → Int) (cs : List (Nat × Delays)) :
+    (psim d (PSim.init toks t0) cs).sched = toks.drop cs.length ∧
+    (toks.length ≤ cs.length → (psim d (PSim.init toks t0) cs).sched = []) ∧
+    (∀ i, (psimOwn i toks cs).length = ((cs.take toks.length).filter (fun c => c.1 = i)).length) := by
+  have h := psim_sched d cs (PSim.init toks t0)
+  refine ⟨h, fun hl => ?_, fun i => psimOwn_total toks cs i⟩
+  rw [h]
+  exact List.drop_eq_nil_of_le hl
+
 /-! ### round 3: the discarded sample in a phout line -/
 
 /-- What a consumer of the phout file sees of a discarded token: the line has `2 + fieldsNum` = 12 TAB-separated columns; column 1
@@ -1002,5 +1113,27 @@ example : (∀ t ∈ [(0 : Int), 100000000, 200000000], t ≤ 0 + 200000000) ∧
 example : (waitV .fresh { lastNow := 0, overdue := 7 } { tok := some 500000000, now := 3000000000, arm := 3000000000, ret := 3000000000 }).w =
     (waitV .fresh { lastNow := 2999999999, overdue := 0 } { tok := some 500000000, now := 3000000000, arm := 3000000000, ret := 3000000000 }).w := by
   decide
+
+/-- round 4, `C04_pool_sim_*`: two instances on one profile of six tokens 100 ms apart; instance 1 starts 0.8 s late; instance 0's first
+request takes 3 s, so the token it is handed next (0.4 s) is 2.6 s late and is discarded, while instance 1 (0.1 s responses) fires the
+four tokens it gets -/
+def psToks : List Int := [0, 100000000, 200000000, 300000000, 400000000, 500000000]
+def psT0 : Nat → Int := fun i => if i = 0 then 0 else 800000000
+def psSteps : List (Nat × Delays) :=
+  [(0, { dPick := 1000, dNow := 10, dArm := 10, dLag := 5000, dur := 3000000000 }),
+   (1, { dPick := 1000, dNow := 10, dArm := 10, dLag := 5000, dur := 100000000 }),
+   (1, { dPick := 1000, dNow := 10, dArm := 10, dLag := 5000, dur := 100000000 }),
+   (1, { dPick := 1000, dNow := 10, dArm := 10, dLag := 5000, dur := 100000000 }),
+   (0, { dPick := 1000, dNow := 10, dArm := 10, dLag := 5000, dur := 3000000000 }),
+   (1, { dPick := 1000, dNow := 10, dArm := 10, dLag := 5000, dur := 100000000 })]
+example : psimOwn 0 psToks psSteps = [0, 400000000] ∧ psimOwn 1 psToks psSteps = [100000000, 200000000, 300000000, 500000000] ∧
+    (runLoop .fresh true Waiter.init (psimHist true psToks psT0 psSteps 0)).1.map Ev.isShoot = [true, false] ∧
+    (runLoop .fresh true Waiter.init (psimHist true psToks psT0 psSteps 1)).1.map Ev.isShoot = [true, true, true, true] ∧
+    (runLoop .fresh false Waiter.init (psimHist false psToks psT0 psSteps 0)).1.map Ev.isShoot = [true, true] ∧
+    (psim true (PSim.init psToks psT0) psSteps).sched = [] := by decide
+/-- the hypotheses of `C04_pool_sim_run_bounded` for both instances (start 0, D = 0.5 s, R = 3 s, ε = 6 µs, δ = 1 µs) -/
+example : zeroTime ≤ psT0 0 ∧ zeroTime ≤ psT0 1 ∧ (∀ tok ∈ psToks, tok ≤ 0 + 500000000) ∧
+    (∀ c ∈ psSteps, (c.2.dur : Int) ≤ 3000000000 ∧ (c.2.dPick : Int) ≤ 1000 ∧ (c.2.dNow : Int) + c.2.dArm + c.2.dLag ≤ 6000) ∧
+    psT0 1 ≤ 0 + 500000000 + maxOverdue + 6000 + 3000000000 := by decide
 
 end Pandora.Props.C04
